@@ -611,8 +611,10 @@ run_exhaustive(long long seed, long cfgno, size_t store_len, int hash, int style
 /* ------------------------------------------------------------------ */
 /* long random histories */
 
+/* large: capacity 700..1500 (store above 65535 bytes: entry offsets no longer fit 16 bits), ID universe only a
+   quarter larger than the capacity so that most lookups of a random ID hit and every save above capacity evicts */
 static void
-run_random(long long seed, long hidx, long oplen)
+run_random(long long seed, long hidx, long oplen, int large)
 {
 	env E;
 	vf_rng r;
@@ -622,17 +624,21 @@ run_random(long long seed, long hidx, long oplen)
 	size_t store_len, off = 0, tail_keep = 1500;
 	long i;
 	int sweep = 0, ok = 1;
+	long long ev0 = n_evict_model, hit0 = n_hit;
 	char *ring;
 
 	memset(&E, 0, sizeof E);
-	vf_rng_init(&r, (uint64_t)seed, 0x2000000 + (uint64_t)hidx);
+	vf_rng_init(&r, (uint64_t)seed, (large ? 0x2800000 : 0x2000000) + (uint64_t)hidx);
 	cls = (int)(hidx % 3);
 	cap = cls == 0 ? (int)vf_range(&r, 1, 6) : cls == 1 ? (int)vf_range(&r, 7, 40) : (int)vf_range(&r, 41, 200);
+	if (large) cap = hidx % 4 == 0 ? (int)vf_range(&r, 656, 700) : (int)vf_range(&r, 700, 1500);
 	switch (vf_below(&r, 4)) { case 0: rem = 0; break; case 1: rem = 1; break; case 2: rem = 99; break; default: rem = (int)vf_below(&r, 100); }
 	store_len = (size_t)cap * ENTRY + (size_t)rem;
 	nids = 3 * cap; if (nids < 4) nids = 4;
+	if (large) nids = cap + cap / 4;
 	hash = (int)((hidx / 3) % NHASH);
 	kind = (int)((hidx / 24) % 3);        /* 0 exact domain only, 1 with forget, 2 anything */
+	if (large) { hash = (int)(hidx % NHASH); kind = (int)((hidx / 2) % 3); }
 	if (hashes[hash].fake) {
 		style = 1;
 	} else {
@@ -643,7 +649,7 @@ run_random(long long seed, long hidx, long oplen)
 	env_make(&E, store_len, hash, dseed);
 	E.vkey = vf_u64(&r);
 	make_ids(&E, nids, style, &r);
-	describe(&E, "random", seed, hidx, 0);
+	describe(&E, large ? "random-large" : "random", seed, hidx, 0);
 	ora_alloc(&O, nids, (int)oplen + 1);
 	ora_reset(&O, cap);
 	case_base = (size_t)snprintf(cur_case, sizeof cur_case, "%s kind=%d order=%d nids=%d ops(last)=", E.cfg, kind, order, nids);
@@ -691,6 +697,13 @@ run_random(long long seed, long hidx, long oplen)
 	}
 	n_hist ++;
 	vf_stat("random_histories", 1);
+	if (large) {
+		vf_stat("large_histories", 1);
+		vf_stat("large_store_above_64k", store_len > 65535);
+		vf_stat("large_model_evictions", n_evict_model - ev0);
+		vf_stat("large_load_hits", n_hit - hit0);
+		vf_max("large_entries_in_use", (long long)(E.cc->store_ptr / ENTRY));
+	}
 	vf_max("max_capacity", cap);
 	vf_distinct("lru_config", "r/%d/%d/%s/%d/%d/%d", cap, rem, hashes[hash].name, style, kind, order);
 	if (hidx < 2) {
@@ -715,6 +728,8 @@ main(int argc, char **argv)
 	long oplen = (long)vf_argi(argc, argv, "--oplen", 10000);
 	int small_depth = (int)vf_argi(argc, argv, "--small-depth", 3);
 	int nhash = (int)vf_argi(argc, argv, "--hashes", NHASH);   /* part A uses the first nhash masking hashes */
+	long nlarge = (long)vf_argi(argc, argv, "--large", 16);
+	long large_oplen = (long)vf_argi(argc, argv, "--large-oplen", 7000);
 	long cfgno = 0;
 	int c, ri, h, k, pf;
 	static const int rems[3] = { 0, 1, 99 };
@@ -755,7 +770,9 @@ main(int argc, char **argv)
 	/* C: long random histories, capacities up to 200 */
 	{
 		long i;
-		for (i = g_worker; i < nrandom; i += g_nworkers) run_random(seed, i, oplen);
+		for (i = g_worker; i < nrandom; i += g_nworkers) run_random(seed, i, oplen, 0);
+		/* D: a few histories on stores above 64 KiB */
+		for (i = g_worker; i < nlarge; i += g_nworkers) run_random(seed, i, large_oplen, 1);
 	}
 	vf_stat("cases", n_ops);
 	vf_stat("ops_save", n_save);
